@@ -95,8 +95,8 @@ def run(ctx: Ctx) -> None:
     acc = _Acc(ctx)
     names = list(H.LIMIT_CONFIGS)
     pairs = not ctx.quick
-    n_valid = ctx.pick(22, 250)
-    per_class = ctx.pick(2, 6)
+    n_valid = ctx.pick(36, 150)
+    per_class = ctx.pick(2, 5)
     # ---- 2. requests
     k = 0
     conn_h: Dict[str, H.ConnHarness] = {}
